@@ -33,6 +33,8 @@ pub struct Spec {
     /// the last block of branch b is replaced by an invalid twin (wrong burn fee, re-signed): a
     /// chain that fails while it is being wound, after its earlier blocks were applied
     pub invalid_last_b: bool,
+    /// the node under test keeps only the tip's transactions in memory (prune_after_blocks = 1)
+    pub pruned: bool,
 }
 
 pub struct Fork {
@@ -169,8 +171,11 @@ fn run_order(fk: &Fork, order: &[usize], orphan_swap: Option<usize>, spec: &Spec
     let w = &fk.w;
     let mut cfg = w.cfg.clone();
     cfg.blockchain.initial_loading_completed = !spec.loading;
+    if spec.pruned {
+        cfg.consensus.prune_after_blocks = 1;
+    }
     let mut n = LedgerNode::new(key(9), cfg);
-    let ctx = json!({"g": spec.g, "loading": spec.loading, "invalid_last_b": spec.invalid_last_b, "stem_gt": spec.stem_gt, "gt_a": spec.gt_a, "gt_b": spec.gt_b, "slow_a": spec.slow_a, "slow_b": spec.slow_b, "spacing_a": spec.sp_a, "spacing_b": spec.sp_b, "order": order, "orphan_swap": orphan_swap});
+    let ctx = json!({"pruned_memory": spec.pruned, "g": spec.g, "loading": spec.loading, "invalid_last_b": spec.invalid_last_b, "stem_gt": spec.stem_gt, "gt_a": spec.gt_a, "gt_b": spec.gt_b, "slow_a": spec.slow_a, "slow_b": spec.slow_b, "spacing_a": spec.sp_a, "spacing_b": spec.sp_b, "order": order, "orphan_swap": orphan_swap});
     for &i in fk.stem.iter() {
         match n.add_block_bytes(&w.blocks[i].bytes) {
             Outcome::Done(AddRes::AddedLongest) => {}
@@ -325,7 +330,7 @@ fn joined_mid_chain(rep: &mut Report) {
             for a in 2..=3usize {
                 for b in 1..=a {
                     for slow_b in [false, true] {
-                        specs.push(Spec { stem_gt: stem.clone(), a, b, gt_a: (0..a).map(|i| i % 2 == 0).collect(), gt_b: (0..b).map(|i| i % 2 == 0).collect(), slow_a: false, slow_b, sp_a: None, sp_b: None, g, loading: true, invalid_last_b: false });
+                        specs.push(Spec { stem_gt: stem.clone(), a, b, gt_a: (0..a).map(|i| i % 2 == 0).collect(), gt_b: (0..b).map(|i| i % 2 == 0).collect(), slow_a: false, slow_b, sp_a: None, sp_b: None, g, loading: true, invalid_last_b: false, pruned: false });
                     }
                 }
             }
@@ -404,7 +409,7 @@ pub fn main(tier: Tier, replay: Option<String>) -> i32 {
                             if a == 0 && sa {
                                 continue;
                             }
-                            specs.push(Spec { stem_gt: st.clone(), a, b, gt_a: ga.clone(), gt_b: gb.clone(), slow_a: sa, slow_b: sb, sp_a: None, sp_b: None, g: 12, loading: false, invalid_last_b: false });
+                            specs.push(Spec { stem_gt: st.clone(), a, b, gt_a: ga.clone(), gt_b: gb.clone(), slow_a: sa, slow_b: sb, sp_a: None, sp_b: None, g: 12, loading: false, invalid_last_b: false, pruned: false });
                         }
                     }
                 }
@@ -419,8 +424,17 @@ pub fn main(tier: Tier, replay: Option<String>) -> i32 {
             for pb in 0..8u32 {
                 let sp_a: Vec<u64> = (0..2).map(|i| if pa >> i & 1 == 1 { 5 } else { 2 }).collect();
                 let sp_b: Vec<u64> = (0..3).map(|i| if pb >> i & 1 == 1 { 5 } else { 2 }).collect();
-                specs.push(Spec { stem_gt: st.clone(), a: 2, b: 3, gt_a: vec![true, true], gt_b: vec![true, false, true], slow_a: false, slow_b: false, sp_a: Some(sp_a), sp_b: Some(sp_b), g: 12, loading: false, invalid_last_b: false });
+                specs.push(Spec { stem_gt: st.clone(), a: 2, b: 3, gt_a: vec![true, true], gt_b: vec![true, false, true], slow_a: false, slow_b: false, sp_a: Some(sp_a), sp_b: Some(sp_b), g: 12, loading: false, invalid_last_b: false, pruned: false });
             }
+        }
+    }
+    // the main grid once more on a node that keeps only the tip's transactions in memory: every
+    // reorganisation reloads the blocks it unwinds from disk
+    {
+        let pr: Vec<Spec> = specs.iter().filter(|s| s.a >= 1 && !s.slow_a && !s.slow_b).cloned().collect();
+        for mut x in pr {
+            x.pruned = true;
+            specs.push(x);
         }
     }
     // the same grid at genesis period 3 (ring of six slots: ids 6 and 12 sit in slot 0, the windows
@@ -444,7 +458,7 @@ pub fn main(tier: Tier, replay: Option<String>) -> i32 {
                     }
                     for ga in subsets(a) {
                         for gb in subsets(b) {
-                            extra.push(Spec { stem_gt: st.clone(), a, b, gt_a: ga.clone(), gt_b: gb.clone(), slow_a: false, slow_b: false, sp_a: None, sp_b: None, g: 12, loading: false, invalid_last_b: false });
+                            extra.push(Spec { stem_gt: st.clone(), a, b, gt_a: ga.clone(), gt_b: gb.clone(), slow_a: false, slow_b: false, sp_a: None, sp_b: None, g: 12, loading: false, invalid_last_b: false, pruned: false });
                         }
                     }
                 }
